@@ -366,6 +366,12 @@ func (vc *FnVC) unop(in *ssa.UnOp) {
 		p := vc.val(in.X)
 		el := in.X.Type().Underlying().(*types.Pointer).Elem()
 		heap := func(c, s string) string { return vc.heapGet(c, s) }
+		if isUint256(el) || isBigInt(el) {
+			c, s := vc.cellComp(el)
+			t := vc.define(in, vc.readCell(c, s, p.S))
+			vc.addRange(t)
+			return
+		}
 		t := vc.define(in, vc.loadObject(p.S, el, heap))
 		vc.addRange(t)
 	case token.NOT:
@@ -501,7 +507,7 @@ func (vc *FnVC) binop(in *ssa.BinOp) {
 	switch in.Op {
 	case token.ADD, token.SUB, token.MUL:
 		op := map[token.Token]string{token.ADD: "+", token.SUB: "-", token.MUL: "*"}[in.Op]
-		raw := fmt.Sprintf("(%s %s %s)", op, x.S, y.S)
+		raw := vc.arith(op, x.S, y.S)
 		if vc.nowrap {
 			_, cx := isConstVal(in.X)
 			_, cy := isConstVal(in.Y)
